@@ -120,7 +120,7 @@ macro_rules! store_instance {
 //@ harness: c04_store_r0_fits c04_store_r3_fits c04_store_r7_exact c04_store_r0_exact c04_store_r1_grow c04_store_r0_grow
 //@ tier: quick
 //@ timeout: 1200
-//@ mem: 12
+//@ mem: 20
 //@ unwindset: mmap_append=170; one_store=110; prestate=110; memcmp.0=20
 //@ cbmc: --max-field-sensitivity-array-size 1100
 //@ encodes: EventStore::new, EventStore::store_event, EventStore::get_event_by_offset, EventStore::read_event_map_end
@@ -137,7 +137,7 @@ store_instance!(c04_store_r0_grow, 153, 256, 104, true);
 //@ harness: c04_store_r1_fits c04_store_r2_fits c04_store_r4_fits c04_store_r5_fits c04_store_r6_fits c04_store_r7_fits c04_store_r2_grow c04_store_r5_grow c04_store_r4_exact
 //@ tier: thorough
 //@ timeout: 1200
-//@ mem: 12
+//@ mem: 20
 //@ unwindset: mmap_append=170; one_store=110; prestate=110; memcmp.0=20
 //@ cbmc: --max-field-sensitivity-array-size 1100
 //@ encodes: EventStore::new, EventStore::store_event, EventStore::get_event_by_offset
